@@ -151,6 +151,8 @@ def check(ctx, rep):
              "by metadata that has changed since is generated again", floor=1)
     rep.rule("R07n", "the filter keeps a name out exactly when the configured ignore pattern matches selectorbase/name, in the root as in any other "
              "directory: the base filter is evaluated with the shipped patterns on names on both sides of their alternatives", floor=1)
+    rep.rule("R07o", "link files (.Links, .names, .cap/*) are decoded the way directory names are (UTF-8 with surrogateescape): a Path= that names an "
+             "entry by bytes that are not UTF-8 still equals that entry's selector, so hiding and merging work for it", floor=1)
     rep.rule("R07i", "= R10c: the listing kept for later requests is the final one (hidden names removed, merged, sorted) - never an intermediate list", floor=2)
     rep.rule("R07h", "the real-file-system VFS lists names exactly as the OS returns them (file-system decoding only): the selector built from a listed name is the name on disk", floor=1)
     rep.rule("R07f", "a name is appended to the file list exactly when the filter accepts it, once", floor=1)
@@ -322,6 +324,8 @@ def check(ctx, rep):
     shared_state_obligations(ctx, rep, "R07j", _Eff(prog, ctx.resolver), listing_funcs, sequential=True)
     if len(rep.obligations) == n_before:
         rep.ok("R07j", f"no module- or class-level state is written while a listing is built [{len(listing_funcs)} functions]", "pygopherd/handlers/dir.py")
+    # ------------------------------------------------------------------ R07o
+    link_decoding_obligations(ctx, rep, "R07o")
     # ------------------------------------------------------------------ R07n
     ignore_filter_obligations(ctx, rep, "R07n", dirbase_ := ctx.cls("handlers.dir.DirHandler"))
     # ------------------------------------------------------------------ R07i
@@ -515,3 +519,53 @@ def ignore_filter_obligations(ctx, rep, rule, dirbase):
         enough = n >= len(names)
         rep.add(rule, f"{rel}: {f.qualname} agrees with the ignore pattern [{n} names evaluated]", not problems and enough, ctx.where(f),
                 "; ".join(problems[:3]) if problems else ("" if enough else "the walker could not follow the filter"), key=f"{rule}|{rel}", nontrivial=enough)
+
+
+# ---------------------------------------------------------------------------------------------- R07o
+def link_decoding_obligations(ctx, rep, rule="R07o"):
+    prog = ctx.prog
+    umn = ctx.cls("handlers.UMN.UMNDirHandler")
+    plf = prog.resolve_method(umn, "processLinkFile") if umn else None
+    if plf is None:
+        rep.fail(rule, "UMNDirHandler.processLinkFile", detail="link-file reader not found")
+        return
+    vfs0 = ctx.cls("handlers.base.VFS_Real")
+
+    def text_opens(func, cls, depth=0):
+        """(function, call, errors value or None, binary?) for every open of a file in `func` (following VFS / handler helpers one level)"""
+        out = []
+        for c in ast.walk(func.node):
+            if not (isinstance(c, ast.Call) and isinstance(c.func, (ast.Attribute, ast.Name))):
+                continue
+            name = c.func.attr if isinstance(c.func, ast.Attribute) else c.func.id
+            kw = {k.arg: k.value for k in c.keywords}
+            if name == "open":
+                mode = kw.get("mode") or (c.args[1] if len(c.args) > 1 else None)
+                if isinstance(c.func, ast.Name) and len(c.args) >= 1 and mode is None and "mode" not in kw:
+                    mode = ast.Constant(value="r")
+                modev = mode.value if isinstance(mode, ast.Constant) else (None if mode is None else "?")
+                if isinstance(mode, ast.Name) and mode.id in func.params:
+                    continue  # a pass-through primitive: judged at its callers
+                err = kw.get("errors") or (c.args[2] if isinstance(c.func, ast.Attribute) and len(c.args) > 2 else None)
+                out.append((func, c, err.value if isinstance(err, ast.Constant) else ("?" if err is not None else None), isinstance(modev, str) and "b" in modev))
+            elif depth < 2 and isinstance(c.func, ast.Attribute) and norm(c.func.value).endswith("vfs") and vfs0 is not None:
+                g = prog.resolve_method(vfs0, name)
+                if g is not None and g.name not in ("open", "isfile", "isdir", "exists", "stat", "listdir", "getfspath", "iswritable", "unlink"):
+                    out.extend(text_opens(g, vfs0, depth + 1))
+        return out
+
+    sites = text_opens(plf, umn)
+    if not sites:
+        rep.fail(rule, f"{plf.qualname}: link files are opened", ctx.where(plf), "no open of the link file found", key=f"{rule}|open")
+        return
+    for func, c, err, binary in sites:
+        if binary:
+            dec = [d for d in ast.walk(func.node) if isinstance(d, ast.Call) and isinstance(d.func, ast.Attribute) and d.func.attr == "decode"]
+            ok = bool(dec) and all(any(k.arg == "errors" and isinstance(k.value, ast.Constant) and k.value.value == "surrogateescape" for k in d.keywords) for d in dec)
+            why = "read as bytes and decoded with errors other than surrogateescape"
+        else:
+            ok = err == "surrogateescape"
+            why = f"opened as text with errors={err!r}"
+        rep.add(rule, f"{func.qualname}: {norm(c)[:60]}", ok, ctx.where(func, c),
+                "" if ok else f"the link file is {why}: a Path= naming an entry whose name is not valid UTF-8 no longer equals the entry's selector "
+                "(which is the file-system decoding of the name) - Type=X does not hide it and Name= does not reach it", key=f"{rule}|{func.qualname}|{norm(c.func)}")
